@@ -230,6 +230,24 @@ func (a *agg) add(key string, rank int64, mk func() (string, any)) {
 	}
 }
 
+// merge folds another aggregator into a (keeping the simplest example per key).
+func (a *agg) merge(o *agg) {
+	a.mu.Lock()
+	defer a.mu.Unlock()
+	for k, oe := range o.m {
+		e := a.m[k]
+		if e == nil {
+			cp := *oe
+			a.m[k] = &cp
+			continue
+		}
+		e.count += oe.count
+		if oe.rank < e.rank {
+			e.rank, e.desc, e.replay = oe.rank, oe.desc, oe.replay
+		}
+	}
+}
+
 func (a *agg) flush(rep *core.Report) {
 	a.mu.Lock()
 	defer a.mu.Unlock()
